@@ -409,8 +409,9 @@ func (f *rField) eval(view any) fieldResult {
 }
 
 // extractions: the value actually present, or - for a string pattern with exactly one capture group - that capture.
+// For an enum that carries a pattern as well the text does not say which of the two it is: both are allowed.
 func (f *rFilter) extractions(v any) []any {
-	if f.Pattern == nil || f.HasEnum {
+	if f.Pattern == nil {
 		return []any{v}
 	}
 	re := compile(*f.Pattern)
@@ -418,6 +419,9 @@ func (f *rFilter) extractions(v any) []any {
 	case string:
 		if re.NumSubexp() == 1 {
 			if m := re.FindStringSubmatch(x); m != nil {
+				if f.HasEnum {
+					return []any{v, m[1]}
+				}
 				return []any{m[1]}
 			}
 		}
